@@ -120,6 +120,8 @@ def write_replay(root, prop, unit, result, fresh, tu, wd):
     try:
         if unit.back_end.startswith("BV"):
             found = _replay_bv(rec, unit, result, fresh, tu, wd)
+        elif getattr(unit, "replay_hook", None) is not None:
+            found = bool(unit.replay_hook(rec, unit, result, fresh, tu, wd, result.get("counterexample")))
         elif unit.back_end == "RING":
             cx = result.get("counterexample")
             if cx:
